@@ -269,6 +269,7 @@ def run_property(prop, tier, seed):
             'solver_time_s': round(sum(o.time_s or 0 for o in obls), 3),
             'trivially_discharged_by_simplifier': trivial,
             'dropped_statements': eng.dropped,
+            'unattached_loop_invariants': R.unattached_loops,
             'racy_reads': sorted(f'{a}:{b}@{c}' for a, b, c in eng.racy_reads),
             'vacuity': {'covers': sum(1 for o in obls if o.kind == 'cover'),
                         'must_fail_twins': sum(1 for o in obls if o.kind == 'twin'),
